@@ -74,6 +74,9 @@ def _never_empty_def(fn: ast.FunctionDef, name: str) -> bool:
     return len(defs) == 1 and isinstance(defs[0], ast.Call) and isinstance(defs[0].func, ast.Attribute) and defs[0].func.attr == "split" and bool(defs[0].args)
 
 
+_MODULE_CONSTS: dict = {}  # module-level constant tuples / lists of the function being analysed (set by local_obligations)
+
+
 def _len_fact(e: ast.expr, pol: bool) -> Optional[tuple[str, int]]:
     """Lower bound on len(x) implied by assuming the comparison `e` has truth value `pol`:
     `len(x) == k`, `len(x) in (a, b)`, `len(x) > k`, `k <= len(x) <= m` (chains), the mirrored forms, and the negations of single comparisons."""
@@ -102,6 +105,8 @@ def _len_fact(e: ast.expr, pol: bool) -> Optional[tuple[str, int]]:
                 continue
         x = len_of(l)
         other = r
+        if isinstance(other, ast.Name) and isinstance(_MODULE_CONSTS.get(other.id), (ast.Tuple, ast.List, ast.Set)):
+            other = _MODULE_CONSTS[other.id]  # `len(x) in _VALID_LENGTHS`
         if x is None and len_of(r) is not None and ot in MIRROR:
             x, other, ot = len_of(r), l, MIRROR[ot]
         if x is None:
@@ -156,6 +161,9 @@ def _syntactic_guard(fn: ast.FunctionDef, site: ast.AST, name: str, need: int) -
 def local_obligations(run: Run, fi: FuncInfo) -> int:
     """Every `name[k]` / `name.pop()` on a local list/str is dominated by a non-emptiness / length fact."""
     fn = fi.node
+    _MODULE_CONSTS.clear()
+    stored = {t.id for t in ast.walk(fn) if isinstance(t, ast.Name) and isinstance(t.ctx, ast.Store)} | {a.arg for a in ast.walk(fn) if isinstance(a, ast.arg)}
+    _MODULE_CONSTS.update({k: v for k, v in fi.module.assigns.items() if k not in stored and isinstance(v, (ast.Tuple, ast.List, ast.Set))})
     sites_total = {id(n): (k, nm, idx, n) for k, nm, idx, n in _use_sites(fn)}
     if not sites_total:
         return 0
@@ -281,11 +289,53 @@ def recogniser_try_parses(model: PyModel, q: str, callee_names: tuple) -> bool:
     for t in walk_no_nested(f.node):
         if isinstance(t, ast.Try):
             body_calls = {ast.unparse(c.func).split(".")[-1] for s in t.body for c in ast.walk(s) if isinstance(c, ast.Call)}
+            # ... or any other function of zorg.shared.dates that lets strptime's ValueError through (a renamed / public parser)
+            raisers = strptime_raisers(model)
+            body_calls |= {"strptime" for s in t.body for c in ast.walk(s) if isinstance(c, ast.Call) and model.callee(f, c) in raisers}
             catches = any(h.type is None or "ValueError" in ast.unparse(h.type) or "Exception" in ast.unparse(h.type) for h in t.handlers)
             returns_false = any(isinstance(r, ast.Return) and isinstance(r.value, ast.Constant) and r.value.value is False for h in t.handlers for r in ast.walk(h))
             if body_calls & set(callee_names) and catches and returns_false:
                 return True
     return False
+
+
+def _unprotected_calls(f):
+    prot: set[int] = set()
+    for t in ast.walk(f.node):
+        if isinstance(t, ast.Try) and any(h.type is None or any(x in ast.unparse(h.type) for x in ("ValueError", "Exception")) for h in t.handlers):
+            for b in t.body:
+                prot.update(id(c) for c in ast.walk(b))
+    return [c for c in walk_no_nested(f.node) if isinstance(c, ast.Call) and id(c) not in prot]
+
+
+def strptime_raisers(model: PyModel) -> dict:
+    """zorg.shared.dates functions that let a strptime ValueError escape -> the set of strptime formats (constants resolved) they can reach."""
+    cache = getattr(model, "_strptime_raisers", None)
+    if cache is not None:
+        return cache
+    raisers: dict = {}
+    changed = True
+    while changed:
+        changed = False
+        for q, f in model.funcs.items():
+            if not q.startswith("zorg.shared.dates."):
+                continue
+            fmts = set(raisers.get(q, ()))
+            for c in _unprotected_calls(f):
+                if ast.unparse(c.func).split(".")[-1] == "strptime":
+                    a = c.args[1] if len(c.args) > 1 else None
+                    if isinstance(a, ast.Name) and isinstance(f.module.assigns.get(a.id), ast.Constant):
+                        a = f.module.assigns[a.id]
+                    fmts.add(a.value if isinstance(a, ast.Constant) and isinstance(a.value, str) else "?")
+                else:
+                    t = model.callee(f, c)
+                    if t in raisers:
+                        fmts |= raisers[t]
+            if fmts and fmts != raisers.get(q):
+                raisers[q] = fmts
+                changed = True
+    model._strptime_raisers = raisers
+    return raisers
 
 
 def strptime_guards(run: Run, model: PyModel) -> None:
@@ -316,27 +366,7 @@ def strptime_guards(run: Run, model: PyModel) -> None:
     run.check("C08.R1", "is_zid is True only when is_short_date_spec accepted the date part", zid_ok, "is_zid", "date part unchecked", "is_zid does not validate the date part of a ZID", file="src/zorg/shared/dates.py", node=fz.node)
     # the call sites: each strptime / from_short_date_spec in the compiler is dominated by the matching recogniser
     ci = model.cls(f"{FC}.ZorgFileCompiler")
-    # zorg functions that let a strptime ValueError escape (call strptime, or another such function, outside `try ... except ValueError`)
-    def _unprotected_calls(f):
-        prot: set[int] = set()
-        for t in ast.walk(f.node):
-            if isinstance(t, ast.Try) and any(h.type is None or any(x in ast.unparse(h.type) for x in ("ValueError", "Exception")) for h in t.handlers):
-                for b in t.body:
-                    prot.update(id(c) for c in ast.walk(b))
-        return [c for c in walk_no_nested(f.node) if isinstance(c, ast.Call) and id(c) not in prot]
-
-    raisers: set[str] = set()
-    changed = True
-    while changed:
-        changed = False
-        for q, f in model.funcs.items():
-            if q in raisers or not q.startswith("zorg.shared.dates."):
-                continue
-            for c in _unprotected_calls(f):
-                if ast.unparse(c.func).split(".")[-1] == "strptime" or model.callee(f, c) in raisers:
-                    raisers.add(q)
-                    changed = True
-                    break
+    raisers = strptime_raisers(model)
     n = 0
     for m in ci.methods.values():
         sites = [c for c in ast.walk(m.node) if isinstance(c, ast.Call) and (ast.unparse(c.func).split(".")[-1] == "strptime" or model.callee(m, c) in raisers)]
@@ -356,7 +386,9 @@ def strptime_guards(run: Run, model: PyModel) -> None:
                             for a in c.args[1:2]:  # the format may be a module-level constant
                                 if isinstance(a, ast.Name) and isinstance(m.module.assigns.get(a.id), ast.Constant):
                                     arg += " " + repr(m.module.assigns[a.id].value)
-                            need = "is_long_date_spec" if "%Y-%m-%d" in arg else ("is_zid" if "zid" in arg else "is_short_date_spec")
+                            fmts = raisers.get(model.callee(m, c) or "", set())
+                            is_long = "%Y-%m-%d" in arg or any("-" in x for x in fmts)
+                            need = "is_long_date_spec" if is_long else ("is_zid" if "zid" in arg else "is_short_date_spec")
                             run.check("C08.R1", f"{m.name}: strptime site guarded by {need}", need in guards or (need == "is_short_date_spec" and "is_zid" in guards), m.name, c,
                                       f"`{ast.unparse(c)[:70]}` is reached on a path that has not established `{need}(...)`: a date-shaped word that is not a calendar date raises ValueError",
                                       file=FILE_C, node=c)
